@@ -622,7 +622,10 @@ func run(c *runner.Ctx) {
 				cars[1] = carrier.StructRM
 			} else if c.Index()%4 == 0 {
 				// (a quarter of the values also right after a call that shadowed the built-in names for itself)
-				cars = append(cars, carrier.StructTagLocalFn, carrier.VarLocalFn)
+				cars = append(cars, carrier.StructTagLocalFn, carrier.VarLocalFn, carrier.MapLocalFn, carrier.StructAfterAbandoned)
+				if v.Kind() == reflect.String && !strings.ContainsAny(v.String(), "&=?#") {
+					cars = append(cars, carrier.UrlLocalFn)
+				}
 			} else if c.Index()%4 == 1 {
 				// (another quarter right after a call that replaced the field's rule for itself)
 				cars = append(cars, carrier.StructTagHist)
